@@ -19,6 +19,7 @@ from sa.symex import Interp, flat_guards
 from sa.rowids import Analyzer, Facts, U32, is_call, method, recv
 
 RULES = {
+    "R-C07-i": "an index loaded from an INDX file has tuple-of-Python-int keys, a Python-int common value and uint32 row arrays (imported from the reader analysis, R-C10-d): a NumPy scalar common value ends up inside a key at the next shift_common()",
     "R-C07-h": "operations write only the receiver's own storage: an operand's row-id arrays are never modified in place (they would leave that index's row range) - the frame analysis shared with C06 rule a and C17",
     "R-C07-g": "optional category parameters (a requested common value, a column) are tested with `is None`, never by truth value: shift_common(0) that silently keeps the old common leaves column_stack with entries listed under the common value (imported from C06 rule m)",
     "R-C07-a": "every stored row-id array is strictly increasing (sorted and unique)",
@@ -666,6 +667,17 @@ def main(tier):
         k17 += 1
     c17.analyse_root(prog, prog.func("iindexes", "column_stack"), "pure", rep, st17, RA="R-C07-h", RB="R-C07-h", extra=False)
     rep.floor("R-C07-h", 22, k17 + 1)
+    # R-C07-i: what IndxIO.load hands back (the roots above include it) becomes an index again: keys are tuples of Python
+    # ints and the common value is a Python int (imported from the INDX reader analysis, R-C10-d).  A NumPy scalar as the
+    # common value compares equal to the int, yet shift_common() then stores it inside a key and extents wrap at its width
+    from sa import indx
+    C10, _info, _W, _R = indx.analyse(prog)
+    k10 = 0
+    for rule10, status10, where10, cons10, detail10, wit10 in C10.items:
+        if rule10 == "R-C10-d":
+            k10 += 1
+            rep.add("R-C07-i", where10, "[R-C10-d] %s" % cons10, status10, detail10, True, wit10)
+    rep.floor("R-C07-i", 4, k10)
     rep.analysed["roots"] = [f.fq for f in roots]
     rep.analysed["store_sites"] = stats["sites"]
     rep.floor("R-C07-a", 30, stats["sites"])
